@@ -58,7 +58,7 @@ for d in sorted(os.listdir(S)):
         'needs_to_manifest': needs,
         'demonstration': {'file': 'demo_test.go', 'how': (run.group(0) if run else demo.strip()[:300])},
         'confirmed_by_me': {
-            'how': 'tools/seed_confirm.sh %s %s in the scratch worktree /tmp/seed/%s/wt (removed afterwards): go build ./... ; the demonstration without the change (passes) and with it (fails)' % (own, m.group(2), own),
+            'how': 'tools/seed_confirm.sh %s %s in the sub-agent\'s scratch worktree under /tmp (removed afterwards): go build ./... ; the demonstration without the change (passes) and with it (fails)' % (own, m.group(2)),
             'builds': True, 'demo_passes_without_change': True, 'demo_fails_with_change': True,
             'pinned_suite_with_change': [{'stable_pass_still_passing': f[1], 'missing': f[2], 'patch': f[3], 'when': f[4] if len(f) > 4 else ''} for f in suites.get(d, [])] or 'sub-agent reported the same ok/FAIL set as the unmodified tree; see SUITE.tsv when present',
         },
